@@ -628,3 +628,63 @@ def writeat(pid):
         res.floor("writes of the flushed window", n, ctx.table("floors").get("writeat_sites", 0))
         return res
     return run
+
+
+def dirtyrange(pid):
+    """R-DIRTYRANGE: what a handle writes back is its whole buffered window - or, if the write-back is narrowed to
+    "from the first modified byte", that lower bound is maintained as a MINIMUM over all writes since the last
+    write-back.  A bound recorded only when the buffer turns from clean to dirty is wrong as soon as a later write
+    lands in front of it (write, seek back inside the window, write): those bytes are never written back."""
+    def run(ctx):
+        from prov import Prov, guards as _guards
+        res = RuleResult("R-DIRTYRANGE(%s)" % pid, "the write-back of a stream handle covers the whole window from buf_offset_from_start, or starts at a bound that is updated from its own previous value (a running minimum)")
+        n = 0
+        for f in ctx.fx.fns.values():
+            if not (f.d.get("impl_trait", "") or "").endswith("Flusher<F>") and "Flusher<F>>::flush_changes" not in f.path:
+                continue
+            v = view(ctx, f)
+            pr = Prov(f)
+            for c in v.calls.values():
+                if not c.name.endswith("write_data_to_stream") or len(c.term["args"]) < 4:
+                    continue
+                n += 1
+                off, buf = pr.operand(c.term["args"][2]), pr.operand(c.term["args"][3])
+                if re.match(r"^param:\w+\.buf_offset_from_start$", off) and re.match(r"^StreamBuffer::filled_slice\(param:\w+\.buffer\)$", buf):
+                    res.ok({"function": f.path, "writes_back": "the whole filled window from the window offset"}, nontrivial=True)
+                    continue
+                fields = set(re.findall(r"param:\w+(?:\.buffer)?\.(\w+)", off + " " + buf)) - {"buf_offset_from_start", "buffer", "data", "cap", "pos", "stream_id", "total_len"}
+                if not fields:
+                    res.fail(Finding(res.rule, "R-DIRTYRANGE/%s/unrecognised-narrowing" % f.path, "the write-back passes offset %s and bytes %s: neither the whole window nor a window narrowed by a recorded bound" % (off[:80], buf[:80]), f, c.term["span"]))
+                    continue
+                for fld in sorted(fields):
+                    stores = []
+                    for f2 in ctx.fx.fns.values():
+                        if "internal::stream" not in f2.path:
+                            continue
+                        pr2 = None
+                        for bb, blk in enumerate(f2.blocks):
+                            if blk["cleanup"]:
+                                continue
+                            for i, st in enumerate(blk["stmts"]):
+                                if st["s"] != "assign":
+                                    continue
+                                fl = [e for e in st["place"]["proj"] if e["p"] == "field"]
+                                if fl and fl[-1]["name"] == fld:
+                                    pr2 = pr2 or Prov(f2)
+                                    val = pr2._def((bb, i, st), 0, ())
+                                    atoms = _guards(ctx, f2).atoms_at(("s", bb, i))
+                                    stores.append((f2, st, val, atoms))
+                    running = False
+                    for (f2, st, val, atoms) in stores:
+                        if re.search(r"\.%s\b" % re.escape(fld), val):
+                            running = True          # the new bound is computed from the old one
+                        for a in atoms:
+                            if re.match(r"^\((Lt|Le|Gt|Ge)\(", a) and re.search(r"\.%s\b" % re.escape(fld), a):
+                                running = True      # stored only when the new position is in front of the old bound
+                    if running:
+                        res.ok({"function": f.path, "narrowed_by": fld, "stores": len(stores), "bound_is_a_running_minimum": True}, nontrivial=True)
+                    else:
+                        res.fail(Finding(res.rule, "R-DIRTYRANGE/%s/%s-not-a-minimum" % (f.path, fld), "the write-back starts at the recorded bound `%s`, but none of the %d stores to it takes its previous value into account (no minimum, no comparison with it): a write that lands in front of an earlier one in the same window is never written back" % (fld, len(stores)), f, c.term["span"]))
+        res.floor("write-back calls", n, ctx.table("floors").get("dirtyrange_sites", 0))
+        return res
+    return run
